@@ -24,6 +24,7 @@ from props import c02
 
 READY = True
 DRIVERS = ['drv_c04']
+PROPERTY_MODULES = ['C04', 'C04Result']
 MANIFEST = dict(
     technique='Lean 4 theorems on a transcribed report-construction model (exactness of report content, grouping by MDS) and on '
               'an interleaving semantics of writer threads (any number of threads, any schedule; writer program generated from a '
